@@ -344,7 +344,7 @@ func c11J(v any) string { b, _ := json.Marshal(v); return string(b) }
 // aimed objects of a body kind for a requester: group A = the victims' objects,
 // group B = S's objects. Within A the domain is the one the requester does not own.
 func (w *c11World) aim(kind, req string) (m *models.PortMapping, k *models.TunnelConnectionCode, d *repos.HTTPDomainMapping, target int64) {
-	if kind == "aimB" {
+	if strings.HasPrefix(kind, "aimB") {
 		return w.MS, w.KS, w.D["DS"], w.id["S"]
 	}
 	d = w.D["D1"]
@@ -408,6 +408,11 @@ func (w *c11World) bodies(ct byte, pt packet.Type, req string, thorough bool, se
 			"reason": "c11", "bytes_sent": 1 << 20, "domain": "probe.example", "notify_id": "n"})
 	}
 	out = append(out, [2]string{"aimA", wf("aimA")}, [2]string{"aimB", wf("aimB")})
+	// same bodies with every receiver/identity-looking body field naming a client that is
+	// NO party to the aimed mapping (and is not the requester): for commands that name a
+	// mapping the mapping decides who is reached, never the body
+	out = append(out, [2]string{"aimA-xids", c11OverrideIDs(wf("aimA"), w.id[w.thirdParty("aimA", req)])},
+		[2]string{"aimB-xids", c11OverrideIDs(wf("aimB"), w.id[w.thirdParty("aimB", req)])})
 	if (ct == byte(packet.DNSResolve) || ct == byte(packet.DNSQuery)) && !pt.IsCommandResp() {
 		var b string
 		if ct == byte(packet.DNSResolve) {
@@ -433,7 +438,7 @@ func (w *c11World) bodies(ct byte, pt packet.Type, req string, thorough bool, se
 // requester is not: the owner of the aimed object where possible.
 func (w *c11World) forgeAs(cs c11Case) (victim, other string) {
 	order := []string{"V1", "V2", "S"}
-	if cs.Kind == "aimB" {
+	if strings.HasPrefix(cs.Kind, "aimB") {
 		order = []string{"S", "V2", "V1"}
 	} else if cs.Req == "V1" {
 		order = []string{"V2", "S", "V1"}
@@ -473,6 +478,34 @@ func (w *c11World) packetFor(cs c11Case, seq int) *packet.CommandPacket {
 		cmd.CommandBody = c11MergeIDs(cs.Body, w.id[victim], w.id[other])
 	}
 	return cmd
+}
+
+// thirdParty: a client that is not a party to the mapping of the aim group and is not
+// the requester (M: parties V1,V2 -> S, or V1 when S asks; MS: party S -> V1, or V2).
+func (w *c11World) thirdParty(kind, req string) string {
+	if strings.HasPrefix(kind, "aimB") {
+		if req == "V1" {
+			return "V2"
+		}
+		return "V1"
+	}
+	if req == "S" {
+		return "V1"
+	}
+	return "S"
+}
+
+// c11OverrideIDs sets every receiver/identity-looking field of a JSON object body.
+func c11OverrideIDs(body string, third int64) string {
+	var m map[string]any
+	if err := json.Unmarshal([]byte(body), &m); err != nil || m == nil {
+		return body
+	}
+	for _, k := range []string{"target_client_id", "client_id", "listen_client_id", "receiver_id", "receiver_client_id",
+		"to_client_id", "dest_client_id", "peer_client_id", "source_client_id", "sender_client_id", "owner_client_id"} {
+		m[k] = third
+	}
+	return c11J(m)
 }
 
 // c11MergeIDs adds identity-looking fields to a JSON object body (only keys that are
@@ -899,8 +932,10 @@ func (w *c11World) judge(cs c11Case, cmd *packet.CommandPacket, out *c11Outcome)
 			}
 			if named != "" {
 				o := w.obj[named]
-				if !w.party(o, cs.Req) || !w.party(o, role) {
+				if !w.party(o, cs.Req) {
 					run.Violation(fmt.Sprintf("C11:deliver|cmd=%s|requester=stranger", name), detail(map[string]any{"recipient": role, "packet": p, "named_mapping": named}))
+				} else if !w.party(o, role) {
+					run.Violation(fmt.Sprintf("C11:deliver|cmd=%s|requester=party|recipient=non-party", name), detail(map[string]any{"recipient": role, "packet": p, "named_mapping": named}))
 				} else {
 					run.Count("deliveries_between_parties", 1)
 				}
@@ -911,6 +946,22 @@ func (w *c11World) judge(cs c11Case, cmd *packet.CommandPacket, out *c11Outcome)
 				run.Observe("delivery_authenticated_unrelated_sample", map[string]any{"cmd": name, "requester": cs.Req, "recipient": role, "packet": p})
 			} else {
 				run.Count("deliveries_between_parties", 1)
+			}
+			// whatever is written to a connection must not carry markers (ids, secrets) of objects
+			// its client is no party to, unless the requester put them into its own request
+			for _, o := range w.objs {
+				if w.party(o, role) {
+					continue
+				}
+				for _, m := range o.Marks {
+					if strings.HasSuffix(m, "\"") {
+						continue // short domain ids are judged in responses only
+					}
+					if strings.Contains(p.Body+p.Raw, m) && !strings.Contains(sent, m) {
+						run.Violation(fmt.Sprintf("C11:leak-to-third|cmd=%s|requester=%s", name, w.reqClass(cs, o)), detail(map[string]any{"recipient": role, "object": o.Name, "marker": m, "packet": p}))
+						break
+					}
+				}
 			}
 			if p.CT == byte(packet.NotifyClient) {
 				var nt struct {
@@ -1124,6 +1175,7 @@ func (d *c11Driver) sweep(types []byte, pts []packet.Type, forges []string, thor
 			for _, req := range c11Roles {
 				// body list is taken from a throw-away view of the current world (kinds only)
 				kinds := d.world().bodies(ct, pt, req, thorough, 0)
+				baseByKind := map[string]string{}
 				for ki := range kinds {
 					kind := kinds[ki][0]
 					idx := ki
@@ -1131,6 +1183,23 @@ func (d *c11Driver) sweep(types []byte, pts []packet.Type, forges []string, thor
 					base, bout := d.one(ct, pt, req, kind, "none", bodyOf)
 					if bout.Watchdog {
 						continue
+					}
+					baseByKind[kind] = base
+					// target_client_id is the command's own addressing field for the DNS forwarders and
+					// C2C notify; everywhere else the connection / the named mapping decides
+					addressing := ct == byte(packet.DNSResolve) || ct == byte(packet.DNSQuery) || ct == byte(packet.SendNotifyToClient)
+					if plain, ok := baseByKind[strings.TrimSuffix(kind, "-xids")]; ok && strings.HasSuffix(kind, "-xids") && !addressing {
+						run.Count("metamorphic_pairs", 1)
+						run.Count("metamorphic_body_id_pairs", 1)
+						if plain != base {
+							cls := "auth"
+							if req == "U0" || req == "U1" {
+								cls = "unauth"
+							}
+							run.Violation(fmt.Sprintf("C11:forged-field-changes-outcome|cmd=%s|field=body-receiver-ids|requester=%s", c11CmdName(ct, pt)+d.suffix, cls),
+								map[string]any{"command_type": ct, "packet_type": byte(pt), "requester": req, "body_kind": kind,
+									"unforged": plain, "forged": base, "forged_outcome": bout})
+						}
 					}
 					for _, f := range forges {
 						if (f == "bodyids" || f == "all") && !strings.HasPrefix(kind, "aim") && kind != "default" {
@@ -1193,7 +1262,7 @@ func c11AllTypes() []byte {
 func TestVerifC11Table(t *testing.T) {
 	run := vk.Start(t, "C11", "table")
 	defer run.Finish()
-	run.Rule("every CommandType byte 0..255 as JsonCommand (quick: CommandResp only for registered/special-cased types; thorough: CommandResp for all) x requester {U0 no handshake, U1 phase-1 for V1's id only, V1 listen party, V2 target party, S unrelated authenticated} x body {handler's well-formed body aimed at the victims' objects, same aimed at S's objects, DNS default-target, empty, truncated JSON (+4 malformed mutants thorough)} x forgery {none, victim ids in SenderId/ReceiverId, victim's secret in Token, victim's id in Token, identity fields added to the body (+swapped ids, all combined thorough)}; a case is distinct by that tuple; worlds (fresh mini server + objects with fresh markers) are rebuilt after every state-changing case")
+	run.Rule("every CommandType byte 0..255 as JsonCommand (quick: CommandResp only for registered/special-cased types; thorough: CommandResp for all) x requester {U0 no handshake, U1 phase-1 for V1's id only, V1 listen party, V2 target party, S unrelated authenticated} x body {handler's well-formed body aimed at the victims' objects, same aimed at S's objects, both again with every receiver/identity-looking body field naming a non-party client, DNS default-target, empty, truncated JSON (+4 malformed mutants thorough)} x forgery {none, victim ids in SenderId/ReceiverId, victim's secret in Token, victim's id in Token, identity fields added to the body (+swapped ids, all combined thorough)}; a case is distinct by that tuple; worlds (fresh mini server + objects with fresh markers) are rebuilt after every state-changing case")
 	d := &c11Driver{t: t, run: run, settle: map[byte]bool{}, reached: map[byte]bool{}}
 	defer func() {
 		if d.w != nil {
@@ -1248,6 +1317,7 @@ func TestVerifC11Table(t *testing.T) {
 	run.Floor("refusal_responses", 100)
 	run.Floor("effects_by_party", 5)
 	run.Floor("metamorphic_pairs", 1000)
+	run.Floor("metamorphic_body_id_pairs", 1000)
 	if run.Counter("watchdog") > 0 {
 		run.Floor("watchdog_free", 1) // a watchdog firing makes the run inconclusive
 	}
